@@ -82,3 +82,64 @@ func ZZ_C15_P2_parse_n1() { zzParseTotal(1) }
 func ZZ_C15_P2_parse_n2() { zzParseTotal(2) }
 func ZZ_C15_P2_parse_n3() { zzParseTotal(3) }
 func ZZ_C15_P2_parse_n4() { zzParseTotal(4) }
+
+// zzActionErrorPrograms: erroneous programs for the errors raised by the
+// grammar's semantic actions (not by the LALR tables): each family is a
+// template whose clause bodies are empty, one-line or multi-line, because the
+// nodes an action can take a position from differ with them.
+func zzActionErrorPrograms() []string {
+	bodies := []string{"", " b ", "\nb\n", " b; c "}
+	var out []string
+	add := func(s ...string) { out = append(out, s...) }
+	add(" = 1", "= 1", "\n= 1", "a, b = ", "a, b =\n", "a = 1\n = 2")
+	add("x, y, z = <-c", "x,\ny, z = <- c", "v, ok, z = <- c\n")
+	for _, b1 := range bodies {
+		for _, b2 := range bodies {
+			for _, b3 := range bodies[:3] {
+				add("if a {" + b1 + "} else {" + b2 + "} else {" + b3 + "}")
+			}
+			add("for in a {"+b1+"}"+b2, "for a, b, c in d {"+b1+"}"+b2, "\nfor a,\nb, c in d {"+b1+"}")
+			for _, pre := range []string{"", "case 1: x\n", "\n"} {
+				for _, mid := range []string{"", ";", "\n", "case 2: y\n", "\ncase 2:\n"} {
+					add("switch a {" + pre + "default:" + b1 + mid + "default:" + b2 + "}")
+					add("switch a {" + pre + "default:" + b1 + mid + "default:" + b2 + "\n}\n")
+				}
+			}
+		}
+	}
+	add("f(, 1)", "a = [, 1]", "func(, a) { }", "func f(, a) { }", "var , a = 1", "{, \"a\": 1}", "a = {\n, \"a\": 1}", "[,\n1]", "f(\n, 1)", "x = [1]\ny = [, 2]")
+	add("1.2.3", "-1.2.3", "0x", "a = 1.2.3", "\n\n1.2.3", "0b", "-0x", "1e", "0x1.8", "a = [1, 0x]", "f(-0b)", "1.2.3\n")
+	return out
+}
+
+// ZZ_C15_P2_action_errors: the obligations of P2 for the programs above.
+func ZZ_C15_P2_action_errors() {
+	progs := zzActionErrorPrograms()
+	src := progs[zz.Choose(len(progs))]
+	var err error
+	panicked := false
+	func() {
+		defer func() {
+			if r := recover(); r != nil {
+				if _, ok := r.(zz.AssumeFailed); ok {
+					panic(r)
+				}
+				panicked = true
+			}
+		}()
+		_, err = ParseSrc(src)
+	}()
+	zz.Assertf(!panicked, "C15.P2.parse-no-panic", src)
+	if panicked || err == nil {
+		return
+	}
+	pe, ok := err.(*Error)
+	zz.Assertf(ok, "C15.P2.error-is-parser-error", src)
+	if ok {
+		msg := pe.Message
+		if len(msg) > 16 && msg[:16] == "invalid number: " {
+			msg = "invalid number"
+		}
+		zz.Assertf(zzPosOK([]rune(src), 0, pe.Pos.Line, pe.Pos.Column), "C15.P2.action-error/position-in-input/"+msg, src)
+	}
+}
